@@ -428,11 +428,17 @@ Definition chk_config (c : rawcase) : float :=
               j_ff := match znth z 9 with 0%Z => None | 1%Z => Some None | 2%Z => Some (Some None) | _ => Some (Some (Some (fnth s 5))) end;
               j_bcoh := fopt (znth z 10) (fnth s 6); j_btot := fopt (znth z 11) (fnth s 7);
               j_merge := mo; j_qmin := fopt (znth z 20) (fnth s 12); j_qmax := fopt (znth z 21) (fnth s 13) |} in
+  (* mode 1: flag form; a flag that is absent on the command line takes the model's argparse default *)
   let j := if zb (znth z 22) then
-      parse_cli_args {| a_density := fnth s 4; a_fn := fnv_of (znth z 1); a_rmax := fnth s 1; a_rpoints := fnth s 3;
-                        a_rdelta := fopt (znth z 4) (fnth s 2); a_cutoff := match znth z 9 with 3%Z => Some (fnth s 5) | _ => None end;
-                        a_lorch := Z.eqb (znth z 8) 2; a_bcoh := fnth s 6; a_btot := fnth s 7;
-                        a_merge_offset := fnth s 9; a_merge_scale := fnth s 8; a_lowq := Z.eqb (znth z 7) 2 |}
+      parse_cli_args (args_of_flags (fnth s 4)
+        {| g_fn := if zb (znth z 0) then Some (fnv_of (znth z 1)) else None;
+           g_rmax := fopt (znth z 3) (fnth s 1); g_rpoints := fopt (znth z 5) (fnth s 3);
+           g_rdelta := fopt (znth z 4) (fnth s 2);
+           g_cutoff := match znth z 9 with 3%Z => Some (fnth s 5) | _ => None end;
+           g_lorch := Z.eqb (znth z 8) 2;
+           g_bcoh := fopt (znth z 10) (fnth s 6); g_btot := fopt (znth z 11) (fnth s 7);
+           g_merge := if zb (znth z 12) then Some (fnth s 9, fnth s 8) else None;
+           g_lowq := Z.eqb (znth z 7) 2 |})
     else j0 in
   let o := lnth (out c) 0 in
   match kwargs2attr j with
